@@ -307,6 +307,8 @@ pub fn get_best_move(
     time_to_move_ms: u128,
     tx: &BoardSender,
 ) {
+    #[cfg(walleye_verif)]
+    crate::verif_hooks::event_search(board, draw_table);
     let mut cur_depth = 1;
     let ply_from_root = 0;
     let mut best_move: Option<BoardState> = None;
